@@ -129,3 +129,37 @@ def shrink_candidates(case):
         yield " ;; ".join(parts[:-1])
     for i in range(1, len(parts) - 1):
         yield " ;; ".join(parts[:i] + parts[i + 1:])
+
+
+def t2(chk, wc, tier, seed):
+    """the cache decisions, regenerated from internal/slicecache/slicecache.go and exec/compile.go: Cache requires all shards
+    (RequireAllCached clears every flag when one is missing), the write-through reader publishes only at end-of-stream and
+    discards on an upstream error, and compile drops a task's dependencies only under IsCached."""
+    import re
+    import vlib
+    sc = open(wc.repo + "/internal/slicecache/slicecache.go").read()
+    sio = open(wc.repo + "/internal/slicecache/sliceio.go").read()
+    comp = open(wc.repo + "/exec/compile.go").read()
+    cache_go = open(wc.repo + "/cache.go").read()
+    req_all = re.search(r"func \(c \*FileShardCache\) RequireAllCached\(\) \{(?:.|\n)*?for _, b := range c\.shardIsCached \{\n\t\tif !b \{\n\t\t\tfor i := range c\.shardIsCached \{\n\t\t\t\tc\.shardIsCached\[i\] = false", sc) is not None
+    cache_requires = re.search(r"func Cache\((?:.|\n)*?shardCache\.RequireAllCached\(\)", cache_go) is not None and \
+        re.search(r"func CachePartial\((?:.|\n)*?\n\}", cache_go).group(0).count("RequireAllCached") == 0
+    try:
+        i = sio.index("func (r *writethroughReader) Read(")
+        wt = sio[i:sio.index("\n}\n", i)]
+    except ValueError:
+        wt = ""
+    closes = wt.count("r.file.Close")
+    publish_at_eof = re.search(r"if err == sliceio\.EOF \{\n\t\t\tcloseErr := r\.zw\.Close\(\)\n\t\t\terrors\.CleanUpCtx\(ctx, r\.file\.Close, &closeErr\)", wt) is not None
+    discard_on_err = re.search(r"\} else \{\n\t\tr\.file\.Discard\(", wt) is not None
+    deps_nil = re.findall(r"task\.Deps = nil", comp)
+    guarded = re.search(r"if c\.inv\.Env\.IsCached\(task\.Name, opIdx\) \{\n(?:\t+.*\n)*?\t+task\.Deps = nil", comp) is not None
+    gen = ("def requireAllG : Bool := %s\ndef cacheKindsG : Bool := %s\ndef writeThroughClosesG : Nat := %d\ndef publishAtEofG : Bool := %s\n"
+           "def discardOnErrG : Bool := %s\ndef depsDroppedG : Nat := %d\ndef depsDroppedGuardedG : Bool := %s") % tuple(
+        ("true" if x else "false") if isinstance(x, bool) else x for x in (req_all, cache_requires, closes, publish_at_eof, discard_on_err, len(deps_nil), guarded))
+    ties = [("cache_decisions_tie",
+             "theorem cache_decisions_tie : requireAllG = true ∧ cacheKindsG = true ∧ writeThroughClosesG = 1 ∧ publishAtEofG = true ∧ "
+             "discardOnErrG = true ∧ depsDroppedG = 1 ∧ depsDroppedGuardedG = true := by decide",
+             "slicecache.RequireAllCached / Cache vs CachePartial (BS.Cache.served), writethroughReader: one Close, at end-of-stream; Discard on "
+             "upstream error; compile: Deps dropped once, under IsCached")]
+    vlib.t2_check(chk, wc, "C13", ["BS.Model.Cache"], gen, ties)
